@@ -7,6 +7,9 @@ import (
 	_ "verif/harness/c03"
 	_ "verif/harness/c06"
 	_ "verif/harness/c08"
+	_ "verif/harness/c09"
+	_ "verif/harness/c13"
+	_ "verif/harness/c14"
 	_ "verif/harness/c16"
 	_ "verif/harness/c17"
 	_ "verif/harness/c20"
